@@ -9,49 +9,49 @@ Import ListNotations.
     prepared statement — however the previous holder stopped (COMMIT, Terminate, socket drop,
     malformed message, panic, idle-in-transaction timeout, statement timeout, write failure,
     server failure). *)
-Theorem c02_clean_handoff : forall n ops s c b,
-  In (CheckedOut s c b) (snd (run (init n) ops)) -> clean b = true.
+Theorem c02_clean_handoff : forall n c0 ops s c b,
+  In (CheckedOut s c b) (snd (run (init n c0) ops)) -> clean c0 b = true.
 Proof. exact clean_handoff. Qed.
 Print Assumptions c02_clean_handoff.
 
 (** C02: a connection goes back to the pool only clean; an unclean one is closed. *)
-Theorem c02_returned_only_clean : forall n ops s b,
-  In (Returned s b) (snd (run (init n) ops)) -> clean b = true.
+Theorem c02_returned_only_clean : forall n c0 ops s b,
+  In (Returned s b) (snd (run (init n c0) ops)) -> clean c0 b = true.
 Proof. exact returned_clean. Qed.
 Print Assumptions c02_returned_only_clean.
 
-Theorem c02_idle_is_clean : forall n ops s k,
-  get s (conns (fst (run (init n) ops))) = Some k -> loc k = Idle -> clean (truth k) = true.
+Theorem c02_idle_is_clean : forall n c0 ops s k,
+  get s (conns (fst (run (init n c0) ops))) = Some k -> loc k = Idle -> clean c0 (truth k) = true.
 Proof. exact idle_is_clean. Qed.
 Print Assumptions c02_idle_is_clean.
 
 (** C01 + C02 as one statement: the whole event log of any run passes the monitor (exclusive
     holder per connection, statements only from the holder, hand-off only when clean). *)
-Theorem c01_c02_log_monitor : forall n ops, exists h, monitor [] (snd (run (init n) ops)) = Some h.
+Theorem c01_c02_log_monitor : forall n c0 ops, exists h, monitor c0 [] (snd (run (init n c0) ops)) = Some h.
 Proof. exact run_monitor. Qed.
 Print Assumptions c01_c02_log_monitor.
 
 (** C01: every statement executed on a server connection comes from the client that holds
     it at that moment (so between a client's check-out and the release nobody else's
     statement runs there, and a release needs a finished transaction by c02_returned_only_clean). *)
-Theorem c01_exec_by_holder : forall n ops e1 s c ss e2,
-  snd (run (init n) ops) = e1 ++ Exec s c ss :: e2 ->
-  exists h1, monitor [] e1 = Some h1 /\ get s h1 = Some (Some c).
+Theorem c01_exec_by_holder : forall n c0 ops e1 s c ss e2,
+  snd (run (init n c0) ops) = e1 ++ Exec s c ss :: e2 ->
+  exists h1, monitor c0 [] e1 = Some h1 /\ get s h1 = Some (Some c).
 Proof. exact exec_by_holder. Qed.
 Print Assumptions c01_exec_by_holder.
 
 (** C01: a server connection serves one client at a time. *)
-Theorem c01_one_holder : forall n ops c1 c2 cl1 cl2 s,
-  get c1 (clients (fst (run (init n) ops))) = Some cl1 -> cst cl1 = Inner s ->
-  get c2 (clients (fst (run (init n) ops))) = Some cl2 -> cst cl2 = Inner s -> c1 = c2.
+Theorem c01_one_holder : forall n c0 ops c1 c2 cl1 cl2 s,
+  get c1 (clients (fst (run (init n c0) ops))) = Some cl1 -> cst cl1 = Inner s ->
+  get c2 (clients (fst (run (init n c0) ops))) = Some cl2 -> cst cl2 = Inner s -> c1 = c2.
 Proof. exact holder_unique. Qed.
 Print Assumptions c01_one_holder.
 
 (** The belief pgcat keeps about a connection is right at every message boundary. *)
-Theorem c02_belief_tracks_truth : forall n ops s k,
-  get s (conns (fst (run (init n) ops))) = Some k -> tracksb (belief k) (truth k) = true.
+Theorem c02_belief_tracks_truth : forall n c0 ops s k,
+  get s (conns (fst (run (init n c0) ops))) = Some k -> tracksb (belief k) (truth k) = true.
 Proof.
-  intros n ops s k G. destruct (run_ok ops (init n) (init_J n) (init_K n)) as [_ [(_ & _ & T) _]].
+  intros n c0 ops s k G. destruct (run_ok ops (init n c0) (init_J n c0) (init_K n c0)) as [_ [(_ & _ & T) _]].
   exact (proj1 (T _ _ G)).
 Qed.
 Print Assumptions c02_belief_tracks_truth.
@@ -66,10 +66,18 @@ Definition put_back_old (st : state) (s : sid) : state * list event :=
   | None => (st, [])
   end.
 Example c02_old_has_broken_refuted :
-  let st0 := fst (run (init 1) [Connect 1 false; Connect 2 false; Query 1 [Begin]]) in
+  let st0 := fst (run (init 1 true) [Connect 1 false; Connect 2 false; Query 1 [Begin]]) in
   let '(st1, ev) := put_back_old st0 0 in
-  exists b, In (Returned 0 b) ev /\ clean b = false.
+  exists b, In (Returned 0 b) ev /\ clean true b = false.
 Proof. vm_compute. eexists. split; [left; reflexivity|reflexivity]. Qed.
+
+(** With cleanup_server_connections = false the operator gave up the reset of session state; the
+    transaction / COPY part still holds ([clean false]) and a panic inside a transaction
+    still closes the connection. *)
+Example c02_cleanup_off :
+  let ev := snd (run (init 1 false) [Connect 1 false; Connect 2 false; Query 1 [SetG]; Query 2 [Begin]; PanicMsg 2; Connect 3 false; Query 3 [Select]]) in
+  monitor false [] ev <> None /\ In (ClosedS 0) ev /\ monitor true [] ev = None.
+Proof. vm_compute. repeat split; try discriminate. auto 10. Qed.
 
 (** Non-vacuity: a history with three clients on a pool of one connection, with a COMMIT; SET
     in one query, a COPY abandoned by a disconnect, a panic inside a transaction, session mode. *)
@@ -77,8 +85,8 @@ Example c02_history :
   let ops := [Connect 1 false; Connect 2 false; Connect 3 true; Query 1 [Begin]; Query 1 [Commit; SetG];
               Query 2 [Select]; Query 1 [Prepare; CopyIn]; Drop 1; Query 2 [Begin]; PanicMsg 2;
               Query 3 [SetG]; Batch 3 true Select; Terminate 3] in
-  let ev := snd (run (init 1) ops) in
+  let ev := snd (run (init 1 true) ops) in
   length (filter (fun e => match e with CheckedOut _ _ _ => true | _ => false end) ev) = 5 /\
   length (filter (fun e => match e with ClosedS _ => true | _ => false end) ev) = 2 /\
-  monitor [] ev <> None.
+  monitor true [] ev <> None.
 Proof. vm_compute. repeat split; discriminate. Qed.
